@@ -79,6 +79,26 @@ deriving DecidableEq, Repr
 
 def R.ofBool (b : Bool) : R := if b then .yes else .no
 
+/-- `InvertedCriterion.Meet`: `if err != nil { return false, err }; return !met, nil` (a panic propagates) -/
+def R.invert : R → R
+  | .yes => .no
+  | .no => .yes
+  | r => r
+
+/-- one step of the `Route.Match` loop: `if !met { return false, err }`, otherwise go on with `k`
+(`k` is a value: the model is pure, so evaluating the rest eagerly does not change the result) -/
+def R.andThen (r k : R) : R :=
+  match r with
+  | .yes => k
+  | r => r
+
+/-- one step of the `CriterionGroupOR.Meet` loop: error ⇒ return it; met ⇒ true; otherwise go on with `k` -/
+def R.orElse (r k : R) : R :=
+  match r with
+  | .yes => .yes
+  | .no => k
+  | r => r
+
 inductive Target where
   | ip (a : IP)
   | domain (d : String)
@@ -127,10 +147,11 @@ def PortSet.addRun (s : PortSet) : (a n : Nat) → PortSet
   | _, 0 => s
   | a, n + 1 => (s.add a).addRun (a + 1) n
 
-/-- number of set bits among `p .. p+n-1` -/
+/-- number of set bits among `p .. p+n-1` (the recursive call is the first summand so that the kernel's
+`Nat.add`, which recurses on its second argument, gets stuck at once instead of unfolding 65536 levels) -/
 def countFrom (mem : Nat → Bool) : Nat → Nat → Nat
   | 0, _ => 0
-  | n + 1, p => (if mem p then 1 else 0) + countFrom mem n (p + 1)
+  | n + 1, p => countFrom mem n (p + 1) + (if mem p then 1 else 0)
 
 /-- first set bit among `p .. p+n-1` (0 when there is none, as `First`) -/
 def firstFrom (mem : Nat → Bool) : Nat → Nat → Nat
@@ -286,30 +307,19 @@ def meet (p : Params) (q : Req) : Crit → R
       match lookup p d resolvers with
       | .error e => .fail e
       | .ok a => geoMatch p cs a
-  | .inverted inner =>
-    match meet p q inner with
-    | .yes => .no
-    | .no => .yes
-    | r => r
+  | .inverted inner => (meet p q inner).invert
   | .groupOr cs => meetOr p q cs
   | .nilCrit => .panic
 /-- `CriterionGroupOR.Meet` -/
 def meetOr (p : Params) (q : Req) : List Crit → R
   | [] => .no
-  | c :: cs =>
-    match meet p q c with
-    | .yes => .yes
-    | .no => meetOr p q cs
-    | r => r
+  | c :: cs => (meet p q c).orElse (meetOr p q cs)
 end
 
 /-- `Route.Match` -/
 def meetAll (p : Params) (q : Req) : List Crit → R
   | [] => .yes
-  | c :: cs =>
-    match meet p q c with
-    | .yes => meetAll p q cs
-    | r => r
+  | c :: cs => (meet p q c).andThen (meetAll p q cs)
 
 /-! ## Configuration -/
 
@@ -468,33 +478,32 @@ def portCrit (s : PortSet) (singleCount allCount maxRanges : Nat) (pointless : B
     let rs := s.rangeSet
     if rs.length ≤ maxRanges then .ok (ranges rs) else .ok (set s)
 
-def secFromPorts (rc : RouteConfig) : Except BuildErr (List Crit) :=
-  if rc.fromPorts.isEmpty && rc.fromPortRanges.isEmpty then .ok []
+/-- the `if len(rc.FromPorts) > 0 || rc.FromPortRanges != "" { ... }` block (same shape for the destination);
+`init` is the zero-valued `var portSet portset.PortSet` -/
+def portsSection (init : PortSet) (ports : List Nat) (items : List PortItem) (invert : Bool)
+    (badPorts badRanges pointless : BuildErr) (singleCount allCount maxRanges : Nat)
+    (single : Nat → Crit) (ranges : List (Nat × Nat) → Crit) (set : PortSet → Crit) : Except BuildErr (List Crit) :=
+  if ports.isEmpty && items.isEmpty then .ok []
   else
-    match addPorts .badFromPorts .empty rc.fromPorts with
+    match addPorts badPorts init ports with
     | .error e => .error e
     | .ok s1 =>
-    match addItems .badFromPortRanges s1 rc.fromPortRanges with
+    match addItems badRanges s1 items with
     | .error e => .error e
     | .ok s2 =>
-    match portCrit s2 C09.srcPortSingleCount C09.srcPortAllCount C09.srcPortMaxRanges .pointlessFromPorts
-        .srcPort .srcPortRanges .srcPortSet with
+    match portCrit s2 singleCount allCount maxRanges pointless single ranges set with
     | .error e => .error e
-    | .ok c => .ok [wrap rc.invertFromPorts c]
+    | .ok c => .ok [wrap invert c]
+
+def secFromPorts (rc : RouteConfig) : Except BuildErr (List Crit) :=
+  portsSection .empty rc.fromPorts rc.fromPortRanges rc.invertFromPorts
+    .badFromPorts .badFromPortRanges .pointlessFromPorts
+    C09.srcPortSingleCount C09.srcPortAllCount C09.srcPortMaxRanges .srcPort .srcPortRanges .srcPortSet
 
 def secToPorts (rc : RouteConfig) : Except BuildErr (List Crit) :=
-  if rc.toPorts.isEmpty && rc.toPortRanges.isEmpty then .ok []
-  else
-    match addPorts .badToPorts .empty rc.toPorts with
-    | .error e => .error e
-    | .ok s1 =>
-    match addItems .badToPortRanges s1 rc.toPortRanges with
-    | .error e => .error e
-    | .ok s2 =>
-    match portCrit s2 C09.dstPortSingleCount C09.dstPortAllCount C09.dstPortMaxRanges .pointlessToPorts
-        .dstPort .dstPortRanges .dstPortSet with
-    | .error e => .error e
-    | .ok c => .ok [wrap rc.invertToPorts c]
+  portsSection .empty rc.toPorts rc.toPortRanges rc.invertToPorts
+    .badToPorts .badToPortRanges .pointlessToPorts
+    C09.dstPortSingleCount C09.dstPortAllCount C09.dstPortMaxRanges .dstPort .dstPortRanges .dstPortSet
 
 /-- a prefix-set criterion's table: literal prefixes + named sets, all of which must exist -/
 def mkPfxSet (env : Env) (lits : List Prefix) (sets : List String) : Except BuildErr PfxSet :=
